@@ -662,7 +662,7 @@ func props() []rp.Prop {
 	return []rp.Prop{
 		rp.P[api.Case]{Name: "args", Checks: ev.Pick(90000, 16000000) / ev.Shards(), Gen: genCase, Sweep: sweep, Check: check},
 		rp.P[bulkCase]{Name: "bulk-upload", Checks: ev.Pick(6000, 600000) / ev.Shards(), Gen: genBulk, Check: checkBulk},
-		rp.P[raceCase]{Name: "concurrent-validation", Checks: ev.Pick(60, 4000) / ev.Shards(), Gen: genConcurrent, Check: checkConcurrent},
+		rp.P[raceCase]{Name: "concurrent-validation", Checks: ev.Pick(160, 8000) / ev.Shards(), Gen: genConcurrent, Check: checkConcurrent},
 		rp.P[relatedCase]{Name: "related-valid-calls", Checks: ev.Pick(400, 40000) / ev.Shards(), Gen: genRelated, Check: checkRelated},
 		rp.P[bypassCase]{Name: "argument-addresses-are-not-contacted", Checks: ev.Pick(60, 6000) / ev.Shards(), Gen: genBypass, Check: checkBypass},
 		rp.P[cfgCase]{Name: "args-configured", Checks: ev.Pick(60000, 8000000) / ev.Shards(), Gen: genCfgCase, Check: checkCfg},
